@@ -25,13 +25,22 @@ def tempo(x):
     return cp.FlexTempo([[0, b, 0]] + [[int(p[0]) / TICK, int(p[1]), int(p[2])] for p in x[1:]])
 
 
+class Note(ce.Chronon):
+    """a user leaf class with class-level defaults for its additional parameters (an instance that sets one of them
+    shadows the class attribute); the default is a value no case uses"""
+    p1 = p2 = p3 = p4 = p5 = p6 = "unset"
+
+
+LEAF = [ce.Chronon]
+
+
 def build(x):
     k = x[0]
     if k == "N":
         v = int(x[1])
         return [None, 1, [], "x", Opaque(), 0.5, (1, 2)][v % 7]
     if k == "L":
-        c = ce.Chronon(int(x[1]) / TICK, tag=(None if int(x[2]) == 0 else f"t{x[2]}"), tempo=tempo(x[3]))
+        c = LEAF[0](int(x[1]) / TICK, tag=(None if int(x[2]) == 0 else f"t{x[2]}"), tempo=tempo(x[3]))
         for n, v in x[4]:
             # negative codes stand for non-numeric parameter values (a rest's pitch None, a string, a tuple, a float, and
             # values that happen to be callable: an envelope shape given as a function, a class)
@@ -51,6 +60,8 @@ def b(v):
 
 def run(case):
     if case[0] == "eq":
+        # every third pair (decided by the case text) is built from the user leaf class, both sides alike
+        LEAF[0] = Note if sum(map(ord, sx.show(case))) % 3 == 1 else ce.Chronon
         try:
             x = build(case[1])
             y = list(x) if case[2] == ["N", "100"] and isinstance(x, list) else build(case[2])
